@@ -446,14 +446,19 @@ class ExpContext(EncodableContext):
             match self.overflow:
                 case OverflowMode.OVERFLOW:
                     if self._overflow_to_infinity(rounded.s):
-                        return Float.nan(ctx=self)
-                    return self.maxval()
+                        result = Float.nan(ctx=self)
+                    else:
+                        result = self.maxval()
                 case OverflowMode.SATURATE:
-                    return self.maxval()
+                    result = self.maxval()
                 case OverflowMode.ASSERT:
                     raise ValueError(f'Rounding {rounded} under self={self} with n={n} would overflow')
                 case _:
                     raise RuntimeError(f'unreachable: {self.overflow}')
+
+            result._real._flags._set_overflow(True)
+            result._real._flags._set_inexact(True)
+            return result
 
         return Float(x=rounded, ctx=self)
 
